@@ -35,6 +35,21 @@ struct SubInfo {
 	ended_by_client: bool,
 }
 
+/// life of a notification handler (subscribe_to_method) as the application and the wire see it
+#[derive(Debug, Clone, PartialEq)]
+enum HState {
+	/// registration sent to the back end, not acknowledged yet (`abandoned`: the caller gave up meanwhile)
+	Pending { abandoned: bool },
+	Live,
+	/// the application is done with it and the back end has certainly been told (or has noticed)
+	Finished,
+	/// dropped / abandoned while the request queue may have been full: the back end notices at the latest with
+	/// the next notification for the method (`need_gate_open`: only once the registration itself has been processed)
+	GoneAfterNotification { need_gate_open: bool },
+	/// explicit unsubscribe() issued while the send task was blocked: takes effect when the gate opens
+	GoneAfterGateOpen,
+}
+
 #[derive(Default)]
 struct Oracle {
 	n_ops: usize,
@@ -42,7 +57,10 @@ struct Oracle {
 	calls: BTreeMap<usize, Value>,
 	batches: BTreeMap<usize, Vec<Value>>,
 	subs: BTreeMap<usize, SubInfo>,
-	handlers: BTreeMap<usize, (String, bool)>,
+	handlers: BTreeMap<usize, (String, HState)>,
+	gate_shut: bool,
+	/// explicit `unsubscribe()` calls whose completion is still expected: op -> must be done by the next line with the gate open
+	unsub_waiting: Vec<usize>,
 	unsent: Vec<(usize, &'static str)>,
 	/// leak counters for the matcher: (a) refused, (b) unsubscribed+acked, (c) closed by server, (d) abandoned
 	residue: [usize; 4],
@@ -54,7 +72,7 @@ impl Oracle {
 		self.unsent.is_empty()
 			&& self.calls.is_empty()
 			&& self.batches.is_empty()
-			&& self.handlers.values().all(|h| !h.1)
+			&& self.handlers.values().all(|h| h.1 == HState::Finished)
 			&& self.subs.values().all(|s| matches!(s.state, SubState::Refused | SubState::UnsubAcked | SubState::ClosedByServer))
 	}
 
@@ -158,6 +176,21 @@ impl Oracle {
 	}
 
 	fn notif(&mut self, e: &Value) {
+		if let (Some(Value::String(m)), None) = (e.get("method"), e.get("id")) {
+			let is_sub_shaped = e.get("params").and_then(|p| p.as_object()).map(|p| p.contains_key("subscription")).unwrap_or(false);
+			if !is_sub_shaped {
+				let shut = self.gate_shut;
+				for h in self.handlers.values_mut() {
+					if h.0 == *m {
+						if let HState::GoneAfterNotification { need_gate_open } = h.1 {
+							if !(need_gate_open && shut) {
+								h.1 = HState::Finished;
+							}
+						}
+					}
+				}
+			}
+		}
 		let Some(p) = e.get("params").and_then(|p| p.as_object()) else { return };
 		if let (Some(sid), true) = (p.get("subscription"), p.contains_key("error")) {
 			let sid = sid.to_string();
@@ -199,8 +232,7 @@ fn run_one(out: &mut Out, lines: &[String]) {
 				}
 				"regnotif" => {
 					let m = String::from_utf8(unhex(w[2])).unwrap_or_default();
-					let ok = obs.comps.iter().any(|(k, c)| *k == orc.n_ops && *c == Comp::Reg);
-					orc.handlers.insert(orc.n_ops, (m, ok));
+					orc.handlers.insert(orc.n_ops, (m, HState::Pending { abandoned: false }));
 					orc.n_ops += 1;
 				}
 				"abandon" => {
@@ -209,14 +241,90 @@ fn run_one(out: &mut Out, lines: &[String]) {
 						s.abandoned = true;
 					}
 					orc.calls.remove(&op);
-				}
-				"drop" | "unsub" => {
-					let op: usize = w[2].parse().unwrap_or(0);
 					if let Some(h) = orc.handlers.get_mut(&op) {
-						h.1 = false;
+						if matches!(h.1, HState::Pending { .. }) {
+							h.1 = HState::Pending { abandoned: true };
+						}
+					}
+				}
+				"drop" => {
+					let op: usize = w[2].parse().unwrap_or(0);
+					let shut = orc.gate_shut;
+					if let Some(h) = orc.handlers.get_mut(&op) {
+						// Drop only *tries* to tell the back end: with the send task blocked the queue may be full
+						h.1 = if shut { HState::GoneAfterNotification { need_gate_open: false } } else { HState::Finished };
+					}
+				}
+				"unsub" => {
+					let op: usize = w[2].parse().unwrap_or(0);
+					let shut = orc.gate_shut;
+					if let Some(h) = orc.handlers.get_mut(&op) {
+						h.1 = if shut { HState::GoneAfterGateOpen } else { HState::Finished };
+					}
+					if orc.handlers.contains_key(&op) || orc.subs.contains_key(&op) {
+						orc.unsub_waiting.push(op);
+					}
+				}
+				"gate" => {
+					orc.gate_shut = w[2] == "shut";
+					if !orc.gate_shut {
+						for h in orc.handlers.values_mut() {
+							match h.1 {
+								HState::GoneAfterGateOpen => h.1 = HState::Finished,
+								// an abandoned registration is processed now: the entry exists, its receiver is gone
+								HState::Pending { abandoned: true } => h.1 = HState::GoneAfterNotification { need_gate_open: true },
+								_ => {}
+							}
+						}
 					}
 				}
 				_ => {}
+			}
+			// acknowledgements of registrations (in the same line, or when the gate opens)
+			for (op, comp) in &obs.comps {
+				let Some(name) = orc.handlers.get(op).map(|h| h.0.clone()) else { continue };
+				match comp {
+					Comp::Reg => {
+						if let Some(h) = orc.handlers.get_mut(op) {
+							if matches!(h.1, HState::Pending { .. }) {
+								h.1 = HState::Live;
+							}
+						}
+					}
+					Comp::E(e) if e == "already" => {
+						// refused: fine only if some handler of that name may still be registered
+						let occupied = orc.handlers.iter().any(|(k, h)| k != op && h.0 == name && !matches!(h.1, HState::Finished));
+						if !occupied && verdict.is_ok() {
+							verdict = Err(format!(
+								"subscribe_to_method({name:?}) refused with AlreadyRegistered although every earlier handler of that name is finished (its entry still captures the name)"
+							));
+						}
+						if let Some(h) = orc.handlers.get_mut(op) {
+							h.1 = HState::Finished;
+						}
+					}
+					_ => {
+						if let Some(h) = orc.handlers.get_mut(op) {
+							h.1 = HState::Finished;
+						}
+					}
+				}
+			}
+			// abandoned registrations with the gate open are processed at once
+			if !orc.gate_shut {
+				for h in orc.handlers.values_mut() {
+					if h.1 == (HState::Pending { abandoned: true }) {
+						h.1 = HState::GoneAfterNotification { need_gate_open: true };
+					}
+				}
+			}
+			// explicit unsubscribe() must complete as soon as the send task can process it
+			orc.unsub_waiting.retain(|op| !obs.unsub_done.contains(op));
+			if !orc.gate_shut && !orc.unsub_waiting.is_empty() {
+				if verdict.is_ok() {
+					verdict = Err(format!("unsubscribe() of stream(s) {:?} did not complete although the send task is free", orc.unsub_waiting));
+				}
+				orc.unsub_waiting.clear();
 			}
 			// what the client received comes before what it wrote as a consequence …
 			if w[1] == "deliver" {
@@ -289,6 +397,8 @@ fn idj(n: u64, str_ids: bool) -> String {
 struct G {
 	str_ids: bool,
 	cap: u64,
+	/// capacity of the front-end -> back-end request queue (max_concurrent_requests)
+	fcap: u64,
 	next_id: u64,
 	next_op: usize,
 	sid_counter: u64,
@@ -412,6 +522,120 @@ impl G {
 				self.lines.push(format!("cl {} {op}", if rng.chance(1, 2) { "drop" } else { "unsub" }));
 				vec![]
 			}
+			9 => {
+				// a handler that ends while the send task is blocked and the request queue is full: Drop cannot tell
+				// the back end (try_send fails), so the entry has to go with the next notification for its method
+				out.count("cycle.handler.full-queue");
+				let m = format!("h{}", rng.below(3));
+				let note = format!("{{\"jsonrpc\":\"2.0\",\"method\":\"{m}\",\"params\":[7]}}");
+				self.lines.push(format!("cl regnotif {}", hexs(&m)));
+				let a = self.next_op;
+				self.next_op += 1;
+				if rng.chance(1, 2) {
+					self.deliver(&note);
+					if rng.chance(1, 2) {
+						self.lines.push(format!("cl next {a}"));
+					}
+				}
+				self.lines.push("cl gate shut".into());
+				let ncalls = if self.fcap <= 3 { self.fcap + 1 + rng.below(2) } else { rng.range(1, 3) };
+				let mut owed = vec![];
+				for _ in 0..ncalls {
+					self.lines.push("cl call".into());
+					owed.push(Owed::CallAnswer(self.next_id));
+					self.next_id += 1;
+					self.next_op += 1;
+				}
+				self.lines.push(format!("cl {} {a}", if rng.chance(3, 4) { "drop" } else { "unsub" }));
+				if rng.chance(1, 3) {
+					self.deliver(&note);
+				}
+				self.lines.push("cl gate open".into());
+				if rng.chance(1, 2) {
+					self.sizes();
+				}
+				self.deliver(&note);
+				if rng.chance(1, 2) {
+					self.sizes();
+				}
+				// the name is free again, and the new handler gets the next notification
+				self.lines.push(format!("cl regnotif {}", hexs(&m)));
+				let b = self.next_op;
+				self.next_op += 1;
+				if rng.chance(1, 2) {
+					self.deliver(&note);
+					self.lines.push(format!("cl next {b}"));
+				}
+				self.lines.push(format!("cl {} {b}", if rng.chance(1, 2) { "drop" } else { "unsub" }));
+				owed
+			}
+			10 => {
+				// registration abandoned by the caller before the back end got to it
+				out.count("cycle.handler.abandoned");
+				let m = format!("h{}", rng.below(3));
+				let note = format!("{{\"jsonrpc\":\"2.0\",\"method\":\"{m}\",\"params\":[8]}}");
+				self.lines.push("cl gate shut".into());
+				self.lines.push("cl call".into());
+				let owed = vec![Owed::CallAnswer(self.next_id)];
+				self.next_id += 1;
+				self.next_op += 1;
+				self.lines.push(format!("cl regnotif {}", hexs(&m)));
+				let a = self.next_op;
+				self.next_op += 1;
+				self.lines.push(format!("cl abandon {a}"));
+				if rng.chance(1, 3) {
+					self.deliver(&note);
+				}
+				self.lines.push("cl gate open".into());
+				if rng.chance(1, 2) {
+					self.sizes();
+				}
+				self.deliver(&note);
+				if rng.chance(1, 2) {
+					self.sizes();
+				}
+				self.lines.push(format!("cl regnotif {}", hexs(&m)));
+				let b = self.next_op;
+				self.next_op += 1;
+				if rng.chance(1, 2) {
+					self.deliver(&note);
+					self.lines.push(format!("cl next {b}"));
+				}
+				self.lines.push(format!("cl {} {b}", if rng.chance(1, 2) { "drop" } else { "unsub" }));
+				owed
+			}
+			11 => {
+				// explicit unsubscribe() of a handler, notifications before and after, name reused
+				out.count("cycle.handler.unsub-reuse");
+				let m = format!("h{}", rng.below(3));
+				let note = |v: u64| format!("{{\"jsonrpc\":\"2.0\",\"method\":\"{m}\",\"params\":[{v}]}}");
+				self.lines.push(format!("cl regnotif {}", hexs(&m)));
+				let a = self.next_op;
+				self.next_op += 1;
+				if rng.chance(2, 3) {
+					self.deliver(&note(1));
+					if rng.chance(1, 2) {
+						self.lines.push(format!("cl next {a}"));
+					}
+				}
+				self.lines.push(format!("cl unsub {a}"));
+				if rng.chance(2, 3) {
+					self.deliver(&note(2));
+				}
+				if rng.chance(1, 3) {
+					self.sizes();
+				}
+				self.lines.push(format!("cl regnotif {}", hexs(&m)));
+				let b = self.next_op;
+				self.next_op += 1;
+				self.deliver(&note(3));
+				self.lines.push(format!("cl next {b}"));
+				self.lines.push(format!("cl {} {b}", if rng.chance(1, 2) { "drop" } else { "unsub" }));
+				if rng.chance(1, 2) {
+					self.deliver(&note(4));
+				}
+				vec![]
+			}
 			_ => {
 				out.count("cycle.sub.abandoned");
 				self.lines.push("cl subscribe".into());
@@ -432,7 +656,18 @@ impl G {
 fn gen_case(rng: &mut Rng, caseno: u64, out: &mut Out, long: Option<(u64, u64)>) -> Vec<String> {
 	let str_ids = rng.chance(1, 3);
 	let cap = rng.range(1, 3);
-	let mut g = G { str_ids, cap, next_id: 0, next_op: 0, sid_counter: 0, lines: vec![format!("case {caseno} client {} {cap} 64", if str_ids { "str" } else { "num" })] };
+	// a small request queue makes "the back end cannot be told" reachable (handler cycles 9 and 10)
+	let want_small = matches!(long, Some((9, _)) | Some((10, _))) || rng.chance(1, 3);
+	let fcap = if want_small { rng.range(1, 2) } else { 64 };
+	let mut g = G {
+		str_ids,
+		cap,
+		fcap,
+		next_id: 0,
+		next_op: 0,
+		sid_counter: 0,
+		lines: vec![format!("case {caseno} client {} {cap} {fcap}", if str_ids { "str" } else { "num" })],
+	};
 	match long {
 		Some((kind, reps)) => {
 			// one cycle kind repeated many times, each brought to quiescence
@@ -453,9 +688,9 @@ fn gen_case(rng: &mut Rng, caseno: u64, out: &mut Out, long: Option<(u64, u64)>)
 			for _ in 0..rounds {
 				let k = rng.range(1, 4);
 				let mut owed: Vec<Owed> = vec![];
-				let single_kind = if rng.chance(2, 3) { Some(rng.below(8)) } else { None };
+				let single_kind = if rng.chance(2, 3) { Some(rng.below(12)) } else { None };
 				for _ in 0..k {
-					let kind = single_kind.unwrap_or_else(|| rng.below(9));
+					let kind = single_kind.unwrap_or_else(|| rng.below(13));
 					owed.extend(g.cycle(rng, kind, out));
 					if rng.chance(1, 5) {
 						g.sizes();
@@ -490,7 +725,7 @@ fn main() {
 		let mut caseno = 0u64;
 		// every cycle kind repeated: 1..200 (quick: 3 lengths), thorough adds 2000
 		let reps: Vec<u64> = if a.tier == "thorough" { vec![1, 2, 7, 50, 200, 2000] } else { vec![1, 5, 200] };
-		for kind in 0..8u64 {
+		for kind in 0..13u64 {
 			for r in &reps {
 				caseno += 1;
 				lines.extend(gen_case(&mut rng, caseno, &mut out, Some((kind, *r))));
